@@ -129,7 +129,9 @@ func init() {
 		HarnessDef{ID: "H18.1a", Spec: HarnessSpec{Name: "vH_C18_tunnel_frame", Pkg: "apis/common", LoopBound: 12, TimeoutS: 120},
 			What:   "PacketOverStreamTunnel.Write: frame = 00 | BE16(len) | data | ff, exactly one conn write of len+4 bytes; > 65535 bytes is an error and nothing is written",
 			Bounds: "every datagram length 0..70000 (symbolic), contents abstract", Outside: "-"},
-		HarnessDef{ID: "H18.1b", Spec: HarnessSpec{Name: "vH_C18_tunnel_roundtrip", Pkg: "apis/common", LoopBound: 12, LoopBounds: map[string]int{"ReadAtLeast": 5}, TimeoutS: 240, Par: 6},
+		HarnessDef{ID: "H18.1b-q", Spec: HarnessSpec{Name: "vH_C18_tunnel_roundtrip_quick", Pkg: "apis/common", LoopBound: 12, LoopBounds: map[string]int{"ReadAtLeast": 5}, TimeoutS: 240, Par: 8},
+			What: "two datagrams (sizes 0..2 x 0..1) written then read back through a stream delivered in ARBITRARY chunks: same boundaries, same bytes, then an error", Bounds: "sizes 0..2 x 0..1, chunk sizes arbitrary", Outside: "larger datagrams: H18.1b (thorough), H18.1a/c"},
+		HarnessDef{ID: "H18.1b", Tier: "thorough", Spec: HarnessSpec{Name: "vH_C18_tunnel_roundtrip", Pkg: "apis/common", LoopBound: 12, LoopBounds: map[string]int{"ReadAtLeast": 5}, TimeoutS: 240, Par: 6},
 			What:   "two datagrams written then read back through a stream delivered in ARBITRARY chunks: same boundaries, same bytes (symbolic contents incl. marker values), then an error (no phantom datagram)",
 			Bounds: "datagram sizes 0..3 x 0..3 (case split), chunk sizes arbitrary 1..16, reader buffer 4", Outside: "larger datagrams only through H18.1a/H18.1c (the framing code has no size-dependent branch other than the two checked there)"},
 		HarnessDef{ID: "H18.1c", Spec: HarnessSpec{Name: "vH_C18_tunnel_malformed", Pkg: "apis/common", LoopBound: 12, LoopBounds: map[string]int{"ReadAtLeast": 5}, TimeoutS: 120, Par: 2},
@@ -142,11 +144,17 @@ func init() {
 		HarnessDef{ID: "H18.2c", Spec: HarnessSpec{Name: "vH_C18_wrapper_writeto", Pkg: "apis/common", LoopBound: 12, TimeoutS: 120},
 			What: "UDPAssociateWrapper.WriteTo: datagram = 00 00 00 01 | addr | port | payload, sent to the named destination", Bounds: "payload 0..3 bytes, all IPv4 addresses/ports", Outside: "IPv6/FQDN destinations in WriteTo"},
 	)
+	c06R := map[string]string{"(*github.com/enfein/mieru/v3/pkg/replay.ReplayCache).computeSignature": "vStubSignature"}
+	c06P := []SrcPatch{
+		{File: "pkg/replay/replay.go", Old: "time.Now()", New: "vNow()", All: true},
+		{File: "pkg/replay/replay.go", Old: "time.Since(", New: "vSince(", All: true},
+		{File: "pkg/replay/replay.go", Old: "func (c *ReplayCache) computeSignature(data []byte) uint64 {\n", New: "func (c *ReplayCache) computeSignature(data []byte) uint64 {\n\tif len(data) == 1 {\n\t\treturn vStubSignature(c, data)\n\t}\n"},
+	}
 	reg("C06",
-		HarnessDef{ID: "H6.1a", Spec: HarnessSpec{Name: "vH_C06_cache_bmc", Pkg: "pkg/replay", LoopBound: 8, TimeoutS: 240, Par: 8, Solver: "cvc5-int"},
+		HarnessDef{ID: "H6.1a", Spec: HarnessSpec{Name: "vH_C06_cache_bmc", Pkg: "pkg/replay", LoopBound: 8, TimeoutS: 240, Par: 8, Solver: "cvc5-int", TimeUnit: "ns", Redirects: c06R}, ReplayPatches: c06P,
 			What:   "ReplayCache.IsDuplicate vs an ideal bounded set over every history of 5 calls from a fresh cache: never-seen => false; seen less than the interval ago and followed by fewer distinct items than the capacity => true; generations never exceed the capacity",
-			Bounds: "5 calls, capacity 1..3 and interval 1 ns..1 h symbolic, 4-item alphabet (1-byte data: FNV-1a injective), arbitrary non-decreasing clock value at every time.Now inside a call, tag feature off", Outside: "histories longer than 5 calls; FNV collisions on longer data"},
-		HarnessDef{ID: "H6.1b", Spec: HarnessSpec{Name: "vH_C06_cache_bmc_tags", Pkg: "pkg/replay", LoopBound: 8, TimeoutS: 240, Par: 8, Solver: "cvc5-int"},
+			Bounds: "5 calls, capacity 1..3 and interval 1 ns..1 h symbolic, 4-item alphabet, arbitrary non-decreasing clock (ns) at every time.Now/time.Since inside a call, tag feature off; signatures = the items (FNV stubbed: injective on 1-byte data)", Outside: "histories longer than 5 calls; FNV collisions"},
+		HarnessDef{ID: "H6.1b", Spec: HarnessSpec{Name: "vH_C06_cache_bmc_tags", Pkg: "pkg/replay", LoopBound: 8, TimeoutS: 240, Par: 8, Solver: "cvc5-int", TimeUnit: "ns", Redirects: c06R}, ReplayPatches: c06P,
 			What: "same histories with arbitrary tags from {\"\", a, b}: a never-seen item is never reported", Bounds: "as H6.1a", Outside: "as H6.1a"},
 		HarnessDef{ID: "H6.1c", Spec: HarnessSpec{Name: "vH_C06_cache_disabled", Pkg: "pkg/replay", LoopBound: 8, TimeoutS: 60},
 			What: "nil cache and capacity 0 never report a replay and never panic", Bounds: "-", Outside: "-"},
